@@ -13,6 +13,8 @@
 (*       | [op |-> "dec", via |-> "bytes" | "regs", type, size,             *)
 (*                 got |-> canonical image of the value decode_* returned,  *)
 (*                 ptr_before, ptr_after, err]                              *)
+(*       | [op |-> "rawdec", src |-> the bytes the decoder was created over,*)
+(*                 type, size, got, ptr_before, ptr_after, err]             *)
 (* err = "" or the name of the exception the call raised (then out / regs / *)
 (* got are empty and the clause fails on its own).                          *)
 (*                                                                         *)
@@ -60,6 +62,8 @@ Judged(ev) ==
        [] ev.op = "dec" -> /\ ev.via \in {"bytes", "regs"} /\ ev.type \in Types
                            /\ ev.size = DecSize(ev.type, ev.size)
                            /\ ~(via \notin {"none", ev.via} /\ k # Len(exp))     \* previous decoder was read to the end
+       [] ev.op = "rawdec" -> /\ ev.type \in Types /\ ev.size = DecSize(ev.type, ev.size) /\ ev.size >= 0
+                              /\ ev.ptr_before >= 0 /\ ev.ptr_before + DecSize(ev.type, ev.size) <= Len(ev.src)
        [] OTHER -> FALSE
 
 Src(v) == IF v = "bytes" THEN buf ELSE RegBytes(Registers(buf))
@@ -106,7 +110,8 @@ Step ==
                   n == DecSize(ev.type, ev.size)
                   inrange == p0 + n <= Len(src)
                   want == IF inrange THEN Unlayout(ev.type, Slice(src, p0 + 1, n), T.bo, T.wo) ELSE <<>>
-                  f == (IF ev.ptr_before # p0 \/ ev.ptr_after # p0 + n THEN {"Pointer"} ELSE {})
+                  f == (IF ev.ptr_before >= 0 /\ ev.ptr_after >= 0 /\ (ev.ptr_before # p0 \/ ev.ptr_after # p0 + n)
+                        THEN {"Pointer"} ELSE {})      \* (-1: the decoder exposes no read position; the values still decide)
                        \cup (IF ~inrange \/ ev.got # want THEN {"DecodeValue"} ELSE {})
                        \cup (IF k0 + 1 > Len(exp) \/ (k0 + 1 <= Len(exp) /\ <<ev.type, ev.got>> # exp[k0 + 1])
                              THEN {"RoundTrip"} ELSE {})
@@ -123,6 +128,19 @@ Step ==
                    /\ IF last /\ k0 + 1 # Len(exp)
                       THEN Verdict("UNJUDGED", i, {}, [why |-> "decoder not read to the end"]) /\ out' = "done"
                       ELSE IF last THEN Verdict("OK", i, {}, [n |-> i]) /\ out' = "done" ELSE out' = "run"
+         [] ev.op = "rawdec" ->
+              (* a decoder over raw bytes the caller supplied (traces recorded from the repository's own tests): *)
+              (* self-contained, the model builder plays no part                                                   *)
+              LET n == DecSize(ev.type, ev.size)
+                  want == Unlayout(ev.type, Slice(ev.src, ev.ptr_before + 1, n), T.bo, T.wo)
+                  f == (IF ev.ptr_after # ev.ptr_before + n THEN {"Pointer"} ELSE {})
+                       \cup (IF ev.got # want THEN {"DecodeValue"} ELSE {})
+              IN
+              /\ UNCHANGED <<buf, exp, via, p, k>>
+              /\ IF f # {}
+                 THEN Verdict("FAIL", i, f, [op |-> "rawdec", type |-> ev.type, got |-> ev.got, expected |-> want,
+                                             ptr_before |-> ev.ptr_before, ptr_after |-> ev.ptr_after, err |-> ev.err]) /\ out' = "done"
+                 ELSE IF last THEN Verdict("OK", i, {}, [n |-> i]) /\ out' = "done" ELSE out' = "run"
   /\ i' = i + 1
   /\ UNCHANGED tr
 
